@@ -138,8 +138,12 @@ one on, in their original order and batching** (`hist.drop j`), submitted to the
 * A commit inside the reorg of batch `j` leaves a manager `m'` on an intermediate tip.  The
   resubmitted batch ends on the same best chain as in the uninterrupted run provided it returns
   no error and its last block is sufficiently heavier than the reopened tip
-  (`catchup_interrupted_batch_best`) — the negations of these two hypotheses are the known classes
-  `crash-inside-failing-reorg-keeps-intermediate-tip` and `catchup-near-tie-first-seen`.  The
+  (`catchup_interrupted_batch_best`).  The negation of the second hypothesis is the known class
+  `catchup-near-tie-first-seen`.  When the first fails (the resubmitted batch offers a chain with
+  an invalid block: the process had stopped inside a reorg that was going to fail) the node rolls
+  back to the reopened transient tip; it is brought back by offering the earlier batches again —
+  the branch the uninterrupted run returned to is stored with supplements and sufficiently heavier —
+  which `harness/c03` checks on the implementation (`catchup-stays-on-lighter-chain`).  The
   notification counter is the only part of the manager that is not stored, and nothing
   `AddBlocks` decides depends on it (`addBlocks_setN`), so from then on both managers stay in
   agreement for the rest of the schedule (`catchup_mid_reorg_partial`).  Still a hypothesis there:
